@@ -3,13 +3,13 @@
 TSIGNAL, thread create / join, reference count operation, iterator call, rfbCloseClient /
 rfbClientConnectionGone call, notify-pipe write, `return` / `break` / `continue`, and the stores / tests
 of `cl->state` and `cl->sock` that steer the threads (also through other pointers: `*->...`).  It is the skeleton of the code WITH
-fixes/C13-01 .. C13-04 applied.  `tools/consts/c13.py` regenerates the same list from the working tree
+fixes/C13-01 .. C13-05 applied.  `tools/consts/c13.py` regenerates the same list from the working tree
 on every run (`VncModel.Gen.C13.skeleton`); `Props.C13.skeleton_matches` compares the two. -/
 namespace VncModel.Threads
 
 def expectedSkeleton : List (String × List String) := [
   ("clientOutput", ["*->sock==RFB_INVALID_SOCKET", "cl->state==RFB_SHUTDOWN", "return", "cl->state!=RFB_NORMAL", "continue", "LOCK updateMutex", "cl->state==RFB_SHUTDOWN", "UNLOCK updateMutex", "return", "WAIT updateCond updateMutex", "UNLOCK updateMutex", "LOCK updateMutex", "UNLOCK updateMutex", "rfbIncrClientRef", "LOCK sendMutex", "UNLOCK sendMutex", "rfbDecrClientRef", "return"]),
-  ("clientInput", ["pthread_create", "cl->state!=RFB_SHUTDOWN", "*->sock==RFB_INVALID_SOCKET", "break", "break", "continue", "break", "LOCK updateMutex", "cl->state=RFB_SHUTDOWN", "TSIGNAL updateCond", "UNLOCK updateMutex", "THREAD_JOIN", "cl->sock=RFB_INVALID_SOCKET", "rfbClientConnectionGone", "return"]),
+  ("clientInput", ["pthread_create", "cl->state!=RFB_SHUTDOWN", "*->sock==RFB_INVALID_SOCKET", "break", "break", "continue", "break", "LOCK updateMutex", "cl->state=RFB_SHUTDOWN", "TSIGNAL updateCond", "UNLOCK updateMutex", "THREAD_JOIN", "LOCK outputMutex", "cl->sock=RFB_INVALID_SOCKET", "UNLOCK outputMutex", "rfbClientConnectionGone", "return"]),
   ("listenerRun", ["return", "continue", "rfbNewClient", "rfbStartOnHoldClient", "return"]),
   ("rfbStartOnHoldClient", ["pthread_create"]),
   ("rfbMarkRegionAsModified", ["rfbGetClientIterator", "rfbClientIteratorNext", "LOCK updateMutex", "TSIGNAL updateCond", "UNLOCK updateMutex", "rfbReleaseClientIterator"]),
